@@ -884,10 +884,21 @@ def _float_to_int(a):
   lo, hi = rng
   if lo < 0:
     raise NoContract('range oracle with negative values')
-  k = lo + c.choose(hi - lo + 1, 'int(%r)' % (a,))
   c.oblige('cast-range', (a >= lo) & (a < hi + 1), 'cover')
+  ks = [k for k in builtin_range(lo, hi + 1) if _feasible(c, (a >= k) & (a < k + 1))]
+  if not ks:
+    ks = [lo]
+  k = ks[c.choose(len(ks), 'int(%r)' % (a,))]
   c.assume((a >= k) & (a < k + 1), 'oracle: int cast == %d' % k)
   return k
+
+
+def _feasible(c, b):
+  """Cheap pruning of oracle alternatives that contradict what is already assumed."""
+  from . import solve
+  r = solve.check_sat([x for x, _ in c.assumptions] + [b], None, 2000, want_model=False,
+                      use_cvc5=False)
+  return r.status != 'unsat'
 
 
 # ----------------------------------------------------------------------- reductions
@@ -1245,7 +1256,15 @@ def _perm_oracle(row, direction, why):
                  reverse=(direction == 'DESCENDING'))
     return idx
   c = _ctx.cur()
-  perms = list(itertools.permutations(builtin_range(n)))
+
+  def order_formula(perm):
+    fs = []
+    for a, b in zip(perm, perm[1:]):
+      fs.append(row[a] >= row[b] if direction == 'DESCENDING' else row[a] <= row[b])
+    return E.ball(fs)
+  perms = [p for p in itertools.permutations(builtin_range(n)) if _feasible(c, order_formula(p))]
+  if not perms:
+    perms = [tuple(builtin_range(n))]
   k = c.choose(len(perms), why)
   perm = list(perms[k])
   for a, b in zip(perm, perm[1:]):
